@@ -302,7 +302,7 @@ func (r wRegistry) ModulePackageSourceAddr(ctx context.Context, pkgAddr regaddr.
 	g := r.w.reg(pkgAddr.String())
 	if g != nil {
 		for _, v := range g.Versions {
-			if versions.MustParseVersion(v.V).Same(version) {
+			if versions.MustParseVersion(v.V) == version {
 				src, err := sourceaddrs.ParseRemoteSource(v.Source)
 				if err != nil {
 					return ret, fmt.Errorf("harness: bad source %q: %v", v.Source, err)
